@@ -72,6 +72,7 @@ def run(ctx):
         _indexsrc(ctx, cfg, prog, mod)
         _orderhash(ctx, cfg, prog, mod)
         _accumfold(ctx, cfg, prog, mod)
+        _staticflow(ctx, cfg, prog, mod)
         rts = roots(prog, mod)
         ctx.floor('determinism roots (constructors + exported &mut operations)', 30, len(rts), cfg)
         reach = prog.reachable_from(rts)
@@ -347,6 +348,22 @@ def _orderkey(ctx, cfg, prog, mod):
             ctx.ob('ORDERKEY', fq, cfg, ok,
                    '; '.join(why) if why else 'comparator %s: coordinate comparison present; position compared only in a then_with '
                    'continuation after it (%d site(s))' % (cq.rsplit('::', 1)[-1], len(pos_closures)), site=site)
+            # TIEID: two inputs with equal coordinates but different identity (UUID / data) tie on the coordinate comparison;
+            # if the input position then decides, which of them is inserted first - and survives the duplicate check -
+            # depends on the listing.  A comparison of the vertices' UUIDs must take part in the comparator.
+            if pos_direct or pos_closures:
+                ident = False
+                for x in fam:
+                    for _, ct in prog.bodies[x].calls():
+                        nm = (ct.resolved or ct.callee or '')
+                        if nm.endswith('Vertex::uuid') or ('uuid::Uuid' in nm and nm.rsplit('::', 1)[-1] in ('cmp', 'partial_cmp', 'lt', 'eq')):
+                            ident = True
+                ctx.ob('ORDERKEY', fq + '|tie-identity', cfg, ident,
+                       'ties of the coordinate comparison %s' % (
+                           'are broken by the vertices\' UUIDs before the input position' if ident else
+                           'are broken by the input position only: of two inputs with equal coordinates and different UUID / data, '
+                           'the one the caller listed first is inserted and the other skipped - the surviving vertex depends on '
+                           'the listing order'), site=site)
     ctx.floor('sort calls in the value-based ordering strategies', 3, n, cfg)
 
 
@@ -603,3 +620,58 @@ def _accumfold(ctx, cfg, prog, mod):
                        'one bound is never considered for the other, so the bounds - and with them the quantised order - depend '
                        'on which vertex is listed first' % sorted(set(bad))), site=site)
     ctx.floor('accumulator updates in the ordering strategies', 2, n, cfg)
+
+
+STATIC_READS = ('load', 'fetch_add', 'fetch_sub', 'swap', 'compare_exchange', 'compare_exchange_weak', 'fetch_max', 'fetch_min',
+                'fetch_update', 'fetch_or', 'fetch_and', 'get', 'get_or_init', 'lock', 'read', 'with')
+STATIC_TABLE = {
+    'core::algorithms::flips::should_emit_ridge_debug': 'rate limit of one debug log line (its only caller logs or does not log)',
+    'core::algorithms::locate::conflict_debug_config': 'debug-logging switches read once from the environment; consulted only around tracing calls',
+}
+
+
+def _staticflow(ctx, cfg, prog, mod):
+    """STATICFLOW: process-wide mutable state (a `static` atomic / OnceLock / Mutex) survives from one construction to the
+    next and is shared between threads, so nothing read from it may influence a result.  For every read of a static in
+    library code the value's forward slice ends in logging / comparison-free telemetry, or in the return value of an
+    exported function nobody in the crate calls (a telemetry getter), or the function is a table entry with its reason.
+    A helper that returns `COUNTER.fetch_add(1) + 1` to a caller that mixes it into a seed is reported at the helper."""
+    ctx.rule('STATICFLOW', 'nothing read from process-wide mutable state reaches a result')
+    n = 0
+    for q, b in sorted(prog.bodies.items()):
+        if '::tests::' in q or not b.file.startswith('src/'):
+            continue
+        statics = {}
+        for blk in b.blocks:
+            for s_ in blk.stmts:
+                if s_.kind == 'A' and s_.rv.k == 'use' and s_.rv.ops and s_.rv.ops[0].kind == 'k' and \
+                        isinstance(s_.rv.ops[0].const, dict) and 'alloc' in str(s_.rv.ops[0].const.get('v', '')) and \
+                        s_.place.is_local() and any(k in str(s_.rv.ops[0].const.get('ty', '')) for k in
+                                                    ('atomic::Atomic', 'OnceLock', 'Mutex', 'RwLock', 'LazyLock', 'OnceCell')):
+                    statics[s_.place.local] = str(s_.rv.ops[0].const.get('ty'))
+        if not statics:
+            continue
+        root = b.root or q
+        for bb, t in b.calls():
+            last = (t.callee or t.resolved or '').rsplit('::', 1)[-1]
+            if last not in STATIC_READS or not t.args or t.args[0].place is None:
+                continue
+            l = t.args[0].place.local
+            d = b.single_def(l)
+            src = d[2].rv.place.local if d and d[1] != 'term' and d[2].rv.place is not None else None
+            if l not in statics and src not in statics:
+                continue
+            n += 1
+            leak = _clock_leak(prog, b, t)
+            callers = [c for c in prog.callers.get(root, ()) if '::tests::' not in c]
+            getter = leak == 'the return value' and not callers and b.exported
+            reason = STATIC_TABLE.get(root)
+            ok = leak is None or getter
+            ctx.ob('STATICFLOW', '%s|%s' % (root, last), cfg, ok,
+                   'value of %s() on a static %s' % (last, statics.get(src, statics.get(l, '?')).split('::')[-1]) + (
+                       ' does not leave logging / telemetry' if leak is None else
+                       ' is returned by an exported getter that nothing in the crate calls' if getter else
+                       ' flows into %s: state that outlives a construction and is shared between threads can change what the same '
+                       'input produces (seeds, decisions)' % leak),
+                   assumed=None if ok else reason, site='%s:%d' % (b.file, t.line))
+    ctx.floor('reads of process-wide statics', 3, n, cfg)
